@@ -63,8 +63,10 @@ def run(ctx):
     for g, lst in groups.items():
         s0, u0, v0, j0, t0 = lst[0]
         for s1, u1, v1, j1, t1 in lst[1:]:
-            ctx.count("routing_pairs_compared")
             t = t0 + t1
+            if t > Fraction(1, 10 ** 6):
+                ctx.count("routing_pair_too_ill_conditioned_skipped"); continue
+            ctx.count("routing_pairs_compared")
             dod = float(s0["case"]["dod"]); D = s0["case"]["D"]
             if abs(u0 - u1) > t * abs(u0) or abs(v0 - v1) > t * abs(v0) or abs(j0 - j1) > (D / 2 + dod + 2) * t * abs(j0) + Fraction(1, 10 ** 12) * abs(j0):
                 ctx.violation(f"u, v or jacobian depend on the loop-momentum routing: ({float(u0)!r},{float(v0)!r},{float(j0)!r}) vs ({float(u1)!r},{float(v1)!r},{float(j1)!r})",
